@@ -165,7 +165,10 @@ func (mc *mergeCache) LabelMap(iv dvid.InstanceVersion) *Mapping {
 	}
 	mapping, found := mc.m[iv]
 	if found {
-		if len(mapping.f) == 0 {
+		mapping.RLock()
+		empty := len(mapping.f) == 0
+		mapping.RUnlock()
+		if empty {
 			return nil
 		}
 		return mapping
@@ -183,7 +186,7 @@ func (mc *mergeCache) MergingToOther(iv dvid.InstanceVersion, label uint64) bool
 	}
 	mapping, found := mc.m[iv]
 	if found {
-		_, merging := mapping.f[label]
+		_, merging := mapping.Get(label)
 		return merging
 	}
 	return false
@@ -451,6 +454,8 @@ func (c *Counts) Value(label uint64) int {
 
 // Empty returns true if there are no counts.
 func (c *Counts) Empty() bool {
+	c.RLock()
+	defer c.RUnlock()
 	if len(c.m) == 0 {
 		return true
 	}
